@@ -104,6 +104,7 @@ sim::Json generate(const std::string& tier, uint64_t seed, uint64_t index) {
   sc.set("names", rng.chance(0.5));
   sc.set("text", rng.chance(0.5)); sc.set("comments", rng.chance(0.5));
   sc.set("points_seed", (double)rng.below(1000000));
+  sc.set("sens", rng.chance(0.5));        // ask for sensitivity ranges: real-valued variable and constraint suffixes come back
   sim::Json script = sim::Json::object();
   static const int codes[] = {0, 0, 0, 100, 200, 400};
   script.set("status", codes[rng.below(6)]);
@@ -331,7 +332,7 @@ sim::RunResult run(const sim::Json& sc) {
       nls.SetFileStub(g.scratch + "stub");
       nls.SetNLOptions(opts);
       if (!nls.LoadModel(static_cast<const mp::NLModel&>(mdl))) err_b = std::string("LoadModel: ") + nls.GetErrorMessage();
-      else if (!nls.Solve("simdrv", "sol:chk:mode=0 mip:basis=1 alg:basis=3")) err_b = std::string("Solve: ") + nls.GetErrorMessage();
+      else if (!nls.Solve("simdrv", sc["sens"].as_bool() ? "sol:chk:mode=0 mip:basis=1 alg:basis=3 alg:sens=1" : "sol:chk:mode=0 mip:basis=1 alg:basis=3")) err_b = std::string("Solve: ") + nls.GetErrorMessage();
       else { sol = nls.ReadSolution(); solved = true; if (!sol) err_b = std::string("ReadSolution: ") + nls.GetErrorMessage(); }
     } catch (const std::exception& e) { exc = e.what(); }
     catch (...) { exc = "non-std exception"; }
@@ -393,6 +394,40 @@ sim::RunResult run(const sim::Json& sc) {
         r.stats.set("sstatus_returned", 1);
         if ((int)ss->values_.size() != n) flag("WRONG_SOLUTION_SIZE", "sstatus", "sstatus has " + std::to_string(ss->values_.size()) + " values");
         else for (int j = 0; j < n; ++j) if ((int)ss->values_[j] != SimBackend::StatusTag(salt, vperm[j])) flag("WRONG_SUFFIX_BACK", "sstatus", "column " + std::to_string(j) + " received status " + std::to_string((int)ss->values_[j]) + ", position " + std::to_string(vperm[j]) + " had " + std::to_string(SimBackend::StatusTag(salt, vperm[j])));
+      }
+    }
+  }
+  // real-valued solver-side suffixes (sensitivity ranges): variables in the caller's order, rows by content
+  if (viol.empty() && solved && sol && sc["sens"].as_bool()) {
+    static const struct { const char* name; double shift; } kVarSens[] = {
+      {"senslbhi", 1e5}, {"senslblo", 2e5}, {"sensubhi", 3e5}, {"sensublo", 4e5}, {"sensobjhi", 5e5}, {"sensobjlo", 6e5}};
+    for (auto& vs : kVarSens) {
+      const mp::NLSuffix* ss = sol.suffixes_.Find(vs.name, 0);
+      if (!ss) continue;
+      r.stats.set("sens_var_suffix_returned", r.stats["sens_var_suffix_returned"].as_int(0) + 1);
+      if ((int)ss->values_.size() != n) { flag("WRONG_SOLUTION_SIZE", vs.name, std::string(vs.name) + " has " + std::to_string(ss->values_.size()) + " values"); continue; }
+      for (int j = 0; j < n; ++j) {
+        double want = SimBackend::VarTag(vperm[j]) + vs.shift;
+        if (ss->values_[j] != want) flag("WRONG_SUFFIX_BACK", "var-real", "column " + std::to_string(j) + " received ." + vs.name + " = " + gen::fmt_double(ss->values_[j]) + ", position " + std::to_string(vperm[j]) + " had " + gen::fmt_double(want));
+      }
+    }
+    const mp::NLSuffix* cs = sol.suffixes_.Find("sensrhshi", 1);
+    if (cs && (int)cs->values_.size() == m) {
+      r.stats.set("sens_con_suffix_returned", 1);
+      for (int i = 0; i < m; ++i) {
+        std::set<std::pair<int, double>> want;
+        size_t e = i + 1 < m ? astart[i + 1] : aindex.size();
+        for (size_t q = astart[i]; q < e; ++q) want.insert({vperm[aindex[q]], avalue[q]});
+        if (want.empty()) continue;
+        int found = 0, gidx = -1, grp = 0;
+        for (auto& dc : sm.cons) {
+          if (!dc.is_alg || !dc.quad.empty()) continue;
+          std::set<std::pair<int, double>> got;
+          for (auto& t : dc.lin) got.insert({t.var, t.coef});
+          if (got == want && dc.lb == rlb[i] && dc.ub == rub[i]) { ++found; gidx = dc.idx_in_group; grp = dc.group; }
+        }
+        if (found == 1 && grp == mp::CG_Linear && cs->values_[i] != SimBackend::ConTag(grp, gidx) + 7e5)
+          flag("WRONG_SUFFIX_BACK", "con-real", "row " + std::to_string(i) + " received .sensrhshi = " + gen::fmt_double(cs->values_[i]) + ", its image row has " + gen::fmt_double(SimBackend::ConTag(grp, gidx) + 7e5));
       }
     }
   }
